@@ -202,7 +202,9 @@ CLAIMED = {
         text=("Theorem C09_query_field_score (Props/C09.v): for well-formed queries without phrase fields the model of "
               "edismax (term-/field-centric choice, running max and sum, tie, boosts, mm filter over exact rationals on "
               "top of the binary32 BM25 model) equals the declarative DisMax + minimum-should-match spec, for every "
-              "number of fields, terms and rows; q_op=AND is mm=100% (C09_and_is_100pct, n <= 50). The check compares "
+              "number of fields, terms and rows (generic form with explicit premises that the per-field score calls and the "
+              "row selection succeed; C09_indexed_query_field_score: both PROVED for frames of freshly indexed columns, no "
+              "premise left); q_op=AND is mm=100% (C09_and_is_100pct, n <= 50). The check compares "
               "the real edismax with model and spec (1e-6 relative, exact zero pattern) incl. unknown terms, mm "
               "variants, boosts, ties and field-centric queries."),
         design_ref="DESIGN.md 7 (C09)",
@@ -213,8 +215,9 @@ CLAIMED = {
         category="proof",
         text=("Theorems (Props/C10.v): the model of the pf / pf2 / pf3 phases (shingles, boosts, scatter-add at the rows "
               "with positive query-field score) equals the spec `query-field score plus boost * whole-frame phrase score "
-              "of each shingle once; zero stays zero` (PARTIAL: with the premise that scores on the view of matching "
-              "rows equal the whole-frame scores at those rows, which is C06's theorem for indexed corpora); every "
+              "of each shingle once; zero stays zero` (generic form: with the premise that scores on the view of matching "
+              "rows equal the whole-frame scores at those rows; C10_indexed_phrase_boosts: premise-free for frames of "
+              "freshly indexed columns whenever no phrase field's term list has an immediately repeated term); every "
               "adjacent pair / triple is produced exactly once and shorter queries add nothing (closed). The check "
               "compares the real edismax with model and spec incl. multi-field boosts."),
         design_ref="DESIGN.md 7 (C10)",
